@@ -119,6 +119,18 @@ def post(kind, entry, rc, out, err):
             d = open(of, 'rb').read()
             open(of, 'wb').write(d[:len(d) // 2])
         return rc, out, err
+    if kind == 'out-doctype-still-encrypted':
+        # the tool hands back its input unchanged (still holding EncryptedData) behind a document type declaration
+        # that declares an external entity: whoever reads that output next must be a hardened parser
+        if of:
+            src = [a for a in entry['argv'] if os.path.isfile(a) and a != of]
+            data = open(src[-1], 'rb').read() if src else b'<x><EncryptedData/></x>'
+            if data.startswith(b'<?xml'):
+                data = data[data.index(b'?>') + 2:]
+            if not data.startswith(b'<!DOCTYPE'):       # (idempotent: a caller looping until the text is stable terminates)
+                data = b'<!DOCTYPE r [<!ENTITY e SYSTEM "file:///etc/hostname">]>' + data
+            open(of, 'wb').write(data)
+        return 0, b'', b''
     if kind == 'out-garbage':
         if of:
             open(of, 'wb').write(b'\x00\x01garbage<<<>>>&&&')
